@@ -17,7 +17,7 @@ E == Tr[l]
 Flag(c, ok) == IF ok THEN {} ELSE {c}
 Init == /\ tid \in 1..Len(Traces) /\ l = 1 /\ bad = {}
         /\ R = [acc |-> {}, rc4 |-> {}, rc5 |-> {}, eodok |-> {}, eod4 |-> {}, eod5 |-> {}, msg |-> 0,
-                fails |-> {}, stall |-> -1, returned |-> FALSE, nrcpt |-> 0, mailcls |-> 0, early |-> {}]
+                fails |-> {}, msg5 |-> FALSE, stall |-> -1, returned |-> FALSE, nrcpt |-> 0, mailcls |-> 0, early |-> {}]
 Cls(c) == c \div 100
 \* failure events the downstream produced: "4", "5" (reply classes) and "x" (disconnect, garbage, silence, refusal)
 FailOf(e) == IF e.act = "code" THEN (IF Cls(e.code) = 4 THEN {"4"} ELSE IF Cls(e.code) = 5 THEN {"5"} ELSE {}) ELSE {"x"}
@@ -27,6 +27,9 @@ EvPeer ==
   /\ LET f == FailOf(E)
          relevant == E.stage \notin {"quit", "rset"} \/ ~R.returned
      IN R' = [R EXCEPT !.fails = IF E.stage = "quit" THEN @ ELSE @ \cup f,
+                       \* a 5xx answer that concerns the whole message (not one recipient among several)
+                       !.msg5 = @ \/ (E.act = "code" /\ Cls(E.code) = 5 /\ E.stage \in {"banner", "ehlo", "helo", "mail", "data", "exit", "http"})
+                                  \/ (E.act = "code" /\ Cls(E.code) = 5 /\ E.stage = "eod" /\ ~T.cfg.lmtp),
                        !.acc = IF E.stage = "rcpt" /\ E.act = "code" /\ Cls(E.code) = 2 THEN @ \cup {E.i} ELSE @,
                        !.rc4 = IF E.stage = "rcpt" /\ E.act = "code" /\ Cls(E.code) = 4 THEN @ \cup {E.i} ELSE @,
                        !.rc5 = IF E.stage = "rcpt" /\ E.act = "code" /\ Cls(E.code) = 5 THEN @ \cup {E.i} ELSE @,
@@ -47,7 +50,10 @@ EvRet ==
        \cup Flag("C11_DeliveredImpliesAccepted",
                  (E.kind \in {"whole", "map"}) => \A i \in Rcpts : E.per[i + 1] = "ok" => Accepted(i))
        \cup Flag("C11_Class",
-                 /\ (E.kind = "raise" /\ E.cls = "P") => "5" \in R.fails
+                 /\ (E.kind = "raise" /\ E.cls = "P") =>
+                       \/ R.msg5
+                       \/ (Rcpts \subseteq (R.rc4 \cup R.rc5) /\ R.rc5 # {})       \* every recipient refused, one of them for good
+                       \/ (T.cfg.lmtp /\ \A i \in Rcpts : i \in R.rc5 \/ i \in R.eod5 \/ i \in R.rc4 \/ i \in R.eod4)
                  /\ (E.kind = "raise" /\ E.cls = "T") => R.fails \cap {"4", "x"} # {}
                  /\ (E.kind = "map" /\ T.cfg.kind = "smtp") =>
                        \A i \in Rcpts : /\ E.per[i + 1] = "P" => (i \in R.rc5 \/ i \in R.eod5 \/ (~T.cfg.lmtp /\ 0 \in R.eod5))
